@@ -186,13 +186,19 @@ func c17R4(c *Ctx) {
 	if g := c.Anchor(rule, "gemmill/modules/go-merkle.(*SimpleProof).Verify"); g != nil {
 		for _, r := range g.Returns() {
 			v := g.ReturnValues(r)[0]
-			if cst, ok := v.(*ssa.Const); ok && cst.Value != nil && cst.Value.ExactString() == "true" {
-				ch := "gemmill/modules/go-merkle.computeHashFromAunts(a1,a2,a3,a0.Aunts)"
-				c.requireGuards(rule, "Verify:true", g, r, []WantGuard{
-					{"computed!=nil", cfgx.Equals("(" + ch + " != nil)")},
-					{"equals-root", cfgx.Equals("bytes.Equal(" + ch + ",a4)")},
-				})
+			ch := "gemmill/modules/go-merkle.computeHashFromAunts(a1,a2,a3,a0.Aunts)"
+			if cst, ok := v.(*ssa.Const); ok && cst.Value != nil {
+				if cst.Value.ExactString() == "true" {
+					c.requireGuards(rule, "Verify:true", g, r, []WantGuard{
+						{"computed!=nil", cfgx.Equals("(" + ch + " != nil)")},
+						{"equals-root", cfgx.Equals("bytes.Equal(" + ch + ",a4)")},
+					})
+				}
+				continue
 			}
+			// a computed result: it may only be the comparison of the walked hash with the root
+			okv := exprOf(v) == "bytes.Equal("+ch+",a4)" && g.HasGuard(r, cfgx.Equals("("+ch+" != nil)"))
+			c.R.Ob(rule, "Verify:computed-result-is-root-comparison", okv, c.Pos(r), fname(g), "Verify may answer true only for the hash computed by walking the aunts with (index, total); it returns "+shorten(exprOf(v)))
 		}
 	}
 }
